@@ -17,6 +17,7 @@ import collections
 import copy
 import json
 import os
+import random
 import shutil
 import subprocess
 import sys
@@ -58,7 +59,11 @@ RULE = ("values from one seeded recursive generator (depth <= 3) over None/bool/
         "that override nothing (namedtuples of 1-3 fields, two with the same fields; subclasses of tuple, list (two), frozenset, set, dict, "
         "OrderedDict, deque; MaskedArray without masked elements) bare and nested, with hashable and with unhashable content, and their "
         "look-alikes (the builtin-class copy, another subclass of the same base, content changed) — every value holding one compared with "
-        "wkey (Model/HashableSub.lean); float ndarrays and array('d') with -0.0 next to 0.0")
+        "wkey (Model/HashableSub.lean); float ndarrays and array('d') with -0.0 next to 0.0. Round s5: a state batch per run (its own stream "
+        "derived from the seed) — Counters holding counts <= 0 (as after Counter.subtract) and picklable unhashable objects whose state is not "
+        "(only) their instance __dict__ (inherited slot + __dict__, slots only, exception args + __dict__, __getstate__ + __dict__), bare and "
+        "nested, with look-alikes that differ only in a count <= 0 / in what unary + or - keeps / only on the hidden or only on the visible "
+        "side of the object / in the class; pairs that differ only in zero counts (equal for Counter.__eq__) are counted, not judged")
 ASSUMPTIONS = ["int, float and bool of equal value are one model value (Python == and hash do not distinguish them; the statement is read "
                "with Python's ==)", "floats are half-integers, inf or nan; nan equality is object identity (fresh objects for ndarray data)",
                "md5 of the cloudpickle bytes is treated as collision-free (opaque digest in the model); pandas objects and fallback "
@@ -409,6 +414,138 @@ def g_sub(rng):  # noqa: PLR0911
     return ["ma", [2], rng.choice(["<i8", "<f8"]), [rng.choice([0, 1, 2]), 1], [0, 0]]
 
 
+# ---- the state family (round s5): values whose key must read MORE than the obvious view of their state
+#   * Counters holding counts <= 0 (what Counter.subtract leaves behind; unary + / - , `elements()`, `most_common` style views drop
+#     or reorder them) — ["counter", items] with counts from COUNTS;
+#   * picklable unhashable objects whose state is not (only) their instance __dict__ — ["fobj", class, hidden parts, visible parts]
+#     (c15_values.FOBJ: inherited slot + __dict__, slots only, exception args + __dict__, __getstate__ + __dict__).
+COUNTS = [-3, -2, -1, -1, 0, 1, 2, 3]
+FOBJ_NAMES = list(V.FOBJ)
+
+
+def g_counter_nonpos(rng):
+    fam = g_family(rng, rng.randint(1, 3))
+    items = [[k, ["int", rng.choice(COUNTS)]] for k in fam]
+    if items and all(v[1] > 0 for _, v in items):
+        items[rng.randrange(len(items))][1] = ["int", rng.choice([-2, -1, 0])]
+    return ["counter", items]
+
+
+def g_fobj(rng):
+    part = lambda lo: [g_value(rng, 2) if rng.random() < 0.35 else g_atom(rng) for _ in range(rng.randint(lo, 2))]  # noqa: E731
+    return ["fobj", rng.choice(FOBJ_NAMES), part(0), part(0 if rng.random() < 0.25 else 1)]
+
+
+def g_state(rng):
+    s = g_counter_nonpos(rng) if rng.random() < 0.5 else g_fobj(rng)
+    r = rng.random()
+    if r < 0.55:
+        return s
+    if r < 0.67:
+        return ["list", [s]]
+    if r < 0.77:
+        return ["tuple", [s, ["int", rng.choice(INTS)]]]
+    if r < 0.87:
+        return ["dict", [[["str", "k"], ["tuple", [s, ["list", [["int", 1]]]]]]]]
+    if r < 0.94:
+        return ["fobj", rng.choice(FOBJ_NAMES), [s], [["str", "p"]]]
+    return ["obj", False, [s]]
+
+
+def relook_counter(rng, s):  # noqa: PLR0911
+    """look-alikes of a Counter that differ (or do not) in its counts <= 0"""
+    items = copy.deepcopy(s[1])
+    r = rng.random()
+    if not items:
+        return ["counter", [[["str", "a"], ["int", rng.choice([-1, 0])]]]]
+    i = rng.randrange(len(items))
+    if r < 0.35 and items[i][1][0] == "int":                  # one count changed, with preference among the counts <= 0
+        nonpos = [j for j, (_, v) in enumerate(items) if v[0] == "int" and v[1] <= 0]
+        i = rng.choice(nonpos) if nonpos and rng.random() < 0.8 else i
+        items[i][1] = ["int", rng.choice([c for c in COUNTS if c != items[i][1][1]])]
+        return ["counter", items]
+    if r < 0.55:                                               # what `+c` keeps: the positive counts
+        return ["counter", [[k, v] for k, v in items if v[0] != "int" or v[1] > 0]]
+    if r < 0.65:                                               # the zero counts dropped (Counter.__eq__ cannot tell: not judged)
+        return ["counter", [[k, v] for k, v in items if v[0] != "int" or v[1] != 0]]
+    if r < 0.75:                                               # what `-c` keeps / every sign flipped
+        return ["counter", [[k, ["int", -v[1]]] if v[0] == "int" else [k, v] for k, v in items]]
+    if r < 0.85:                                               # negative counts clamped to zero
+        return ["counter", [[k, ["int", max(v[1], 0)]] if v[0] == "int" else [k, v] for k, v in items]]
+    if r < 0.93:
+        return [rng.choice(["dict", "odict"]), items]                # the same mapping as another type
+    rng.shuffle(items)
+    return ["counter", items]
+
+
+def relook_fobj(rng, s):  # noqa: PLR0911
+    """look-alikes of a fallback object: one part changed on the hidden / on the visible side, the parts on the other side, another
+    class with the same parts, the same parts in a plain object, an identical copy"""
+    _, name, hid, vis = copy.deepcopy(s)
+    r = rng.random()
+    if r < 0.35:                                               # the hidden part differs
+        if hid and rng.random() < 0.8:
+            i = rng.randrange(len(hid))
+            hid[i] = perturb(rng, hid[i]) if rng.random() < 0.5 else g_atom(rng)
+        else:
+            hid = hid + [g_atom(rng)]
+        return ["fobj", name, hid, vis]
+    if r < 0.5:                                                # the visible part differs
+        if vis and rng.random() < 0.8:
+            i = rng.randrange(len(vis))
+            vis[i] = perturb(rng, vis[i]) if rng.random() < 0.5 else g_atom(rng)
+        else:
+            vis = vis + [g_atom(rng)]
+        return ["fobj", name, hid, vis]
+    if r < 0.6:
+        return ["fobj", name, vis, hid]
+    if r < 0.7 and hid:                                        # one part moved from the hidden to the visible side
+        return ["fobj", name, hid[:-1], [hid[-1]] + vis]
+    if r < 0.82:
+        return ["fobj", rng.choice([n for n in FOBJ_NAMES if n != name]), hid, vis]
+    if r < 0.9:
+        return ["obj", rng.random() < 0.3, hid + vis]
+    return ["fobj", name, hid, vis]
+
+
+def relook_state(rng, s):
+    """apply a targeted look-alike at one Counter / fallback-object node of `s` (anywhere below the root), else a general look-alike"""
+    paths = []
+
+    def find(x, path):
+        if x[0] in ("counter", "fobj"):
+            paths.append(path)
+        for i, k in enumerate(kids(x)):
+            find(k, path + [i])
+    find(s, [])
+    if not paths or rng.random() < 0.2:
+        return lookalike(rng, s)
+    path = rng.choice(paths)
+
+    def go(x, p):
+        if not p:
+            return relook_counter(rng, x) if x[0] == "counter" else relook_fobj(rng, x)
+        ks = list(kids(x))
+        ks[p[0]] = go(ks[p[0]], p[1:])
+        return with_kids(x, ks)
+    try:
+        return go(s, path)
+    except Exception:  # noqa: BLE001
+        return copy.deepcopy(s)
+
+
+def make_state_batch(rng, n):
+    specs = []
+    while len(specs) < n:
+        s = g_state(rng) if len(specs) < 4 or rng.random() < 0.38 else relook_state(rng, rng.choice(specs))
+        try:
+            V.build(s)
+        except Exception:  # noqa: BLE001
+            continue
+        specs.append(s)
+    return specs
+
+
 def g_outside(rng):  # noqa: PLR0911
     """The stream outside the modelled fragment / outside what the generator considers well-formed."""
     r = rng.randrange(20)
@@ -464,6 +601,8 @@ def kids(s):
         return s[2]
     if t == "obj":
         return s[2]
+    if t == "fobj":
+        return s[2] + s[3]
     if t in MAP:
         return [v for _, v in s[1]]
     if t == "ddict":
@@ -480,6 +619,8 @@ def with_kids(s, new):
         s[1] = new
     elif t in ("deque", "obj"):
         s[2] = new
+    elif t == "fobj":
+        s[2], s[3] = new[:len(s[2])], new[len(s[2]):]
     elif t in MAP:
         s[1] = [[k, v] for (k, _), v in zip(s[1], new)]
     elif t == "ddict":
@@ -759,6 +900,10 @@ def _walk(obj, seen=None):
     elif isinstance(obj, V.Obj):
         for x in obj.attrs:
             yield from _walk(x)
+    elif isinstance(obj, V.FOBJ_CLASSES):
+        for part in obj.parts():
+            for x in part:
+                yield from _walk(x)
     elif type(obj).__module__.split(".")[0] == "pandas" and type(obj).__name__ in ("Series", "DataFrame"):
         d = _pandas_dict(obj)                      # what the key is built from: its keys are sorted like those of any dict
         if d is not None:
@@ -812,6 +957,9 @@ def has_unorderable(obj):
 
 def has_partial_order(obj):
     return any(len(els) >= 2 and any(_partial(e) for e in els) for els in _sorted_collections(obj))
+
+
+c15_calls.PARTIAL_ORDER = has_partial_order      # "recomputed a call that passes the same values" is not demanded of KF-C15-partial-order-sort values
 
 
 def exc_matches(k, err):
@@ -974,6 +1122,21 @@ CORPUS = [
     ["list", [["set", [["npscalar", "float64", 1], ["bool", False], ["str", "ba"]]]]],       # DF-20 (a) with a numpy scalar: sorted raises numpy's TypeError subclass
     ["nd", [2], "<f8", [0, 1]], ["nd", [2], "<f8", [-0.0, 1]], ["nd", [2], "<f4", [-0.0, 1]], ["array", "d", [-0.0]], ["array", "d", [0]],
     *EMPTIES, *ONES, ["list", [["list", []]]], ["list", [["tuple", []]]], ["tuple", [["list", []]]], ["list", [["dict", []]]], ["list", [["set", []]]],
+]
+
+
+# the corpus of the state family: prepended to the first state batch (not to CORPUS, whose batch feeds the run's main RNG stream)
+STATE_CORPUS = [
+    # round s5 (seeded C15-s5-A / -B): Counters that differ only in counts <= 0 (bare, nested), what `+c` keeps; objects whose state is not
+    # their __dict__ and that differ on the hidden side only / on the visible side only / in their class
+    ["counter", [[["str", "a"], ["int", -1]]]], ["counter", [[["str", "a"], ["int", -2]]]], ["counter", [[["str", "a"], ["int", 0]]]],
+    ["counter", [[["str", "x"], ["int", 3]], [["str", "y"], ["int", -1]]]], ["counter", [[["str", "x"], ["int", 3]], [["str", "y"], ["int", -5]]]],
+    ["counter", [[["str", "x"], ["int", 3]]]], ["list", [["counter", [[["str", "a"], ["int", -1]]]]]], ["list", [["counter", [[["str", "a"], ["int", -2]]]]]],
+    ["dict", [[["str", "k"], ["tuple", [["counter", [[["int", 1], ["int", -1]]]], L1]]]]], ["dict", [[["str", "k"], ["tuple", [["counter", [[["int", 1], ["int", -3]]]], L1]]]]],
+    *[["fobj", c, [["float", h], ["float", 2.0]], [["str", v]]] for c in ("SlotDictObj", "SlotOnlyObj", "ArgsObj", "StateObj") for h, v in ((1.0, "p"), (5.0, "p"), (1.0, "q"))],
+    ["list", [["fobj", "SlotDictObj", [["int", 1]], [["str", "p"]]]]], ["list", [["fobj", "SlotDictObj", [["int", 2]], [["str", "p"]]]]],
+    ["dict", [[["str", "k"], ["tuple", [["fobj", "StateObj", [L1], [["str", "p"]]], ["list", [["int", 0]]]]]]]],
+    ["dict", [[["str", "k"], ["tuple", [["fobj", "StateObj", [["list", [["int", 2]]]], [["str", "p"]]], ["list", [["int", 0]]]]]]]],
 ]
 
 
@@ -1143,6 +1306,8 @@ def check_batch(ctx, b: Batch, resp, resp_shuf, child_lines):  # noqa: C901, PLR
                     ctx.count("pairs:split-not-judged-pickle-fallback")
             elif eqk and not same and (fallback[i] or fallback[j]) and same_nan_equal(vi, b.vals[j]):
                 ctx.count("pairs:fallback-objects-differing-only-in-nan-identity")      # a pickle cannot tell NaN objects apart
+            elif eqk and not same and V.differ_only_in_zero_counts(vi, b.vals[j]):
+                ctx.count("pairs:not-judged-differ-only-in-zero-counts")      # Counter(a=0) == Counter(): equal for Counter.__eq__, different mappings
             elif eqk and not same:
                 ctx.violation({"kind": "collision", "a": si, "b": b.specs[j]}, "different values get equal keys (a cache returns the result "
                               "stored for the other value)", impl=[repr(ki)[:200], repr(b.keys[j][1])[:200]])
@@ -1328,11 +1493,11 @@ def same_nan_equal(a, b):
 
 
 def uses_fallback(obj):
-    return any(isinstance(x, V.Obj) or type(x).__module__.split(".")[0] == "pandas" for x in _walk(obj))
+    return any(isinstance(x, (V.Obj, *V.FOBJ_CLASSES)) or type(x).__module__.split(".")[0] == "pandas" for x in _walk(obj))
 
 
 def uses_pickle(obj):
-    return any(isinstance(x, V.Obj) for x in _walk(obj))
+    return any(isinstance(x, (V.Obj, *V.FOBJ_CLASSES)) for x in _walk(obj))
 
 
 def _has_opaque(j):
@@ -1388,7 +1553,11 @@ def check_memo(ctx, b: Batch, rng, tmp, n_calls):
                 ok = src is not None and V.py_same(b.vals[seq[src]], b.vals[i])
             finally:
                 V.NAN_EQUAL = False
-            if not ok:
+            if not ok and src is not None and V.differ_only_in_zero_counts(b.vals[seq[src]], b.vals[i]):
+                ctx.count("memo:not-judged-differ-only-in-zero-counts")
+            elif not ok and src is not None and (uses_pickle(b.vals[i]) or uses_pickle(b.vals[seq[src]])) and same_nan_equal(b.vals[seq[src]], b.vals[i]):
+                ctx.count("memo:not-judged-pickled-objects-differing-only-in-nan-identity")      # a pickle cannot tell NaN objects apart (as in check_batch)
+            elif not ok:
                 ctx.violation({"kind": "memo", "cache": name, "a": b.specs[i], "b": b.specs[seq[src]] if src is not None else None},
                               f"memoize({name}) returned the result stored for a different argument")
         hits_by_cache[name] = hits
@@ -1413,12 +1582,17 @@ def compare_memo(ctx, resp, hits_by_cache, specs):
 
 
 # ------------------------------------------------------------------------------------------------ the keys around to_hashable
-def call_checks(ctx, b: Batch, rng, tmp, scale):
+def has_zero_count(obj):
+    return any(isinstance(x, collections.Counter) and any(isinstance(c, (int, float)) and c == 0 for c in x.values()) for x in _walk(obj))
+
+
+def call_checks(ctx, b: Batch, rng, tmp, scale, leave_out=None):
     """The streams of c15_calls.py over the values of one batch that can be arguments of a cached call: a hashable key, equal to
     themselves, no numpy scalar inside (LRUCache/HybridCache.get compare keys with `list.remove`, see check_memo)."""
     import numpy as np
     idx = [i for i in range(len(b.specs)) if b.keys[i][0] == "ok" and _is_hashable(b.keys[i][1]) and V.py_same(b.vals[i], b.vals[i])
-           and not any(isinstance(x, np.generic) or (isinstance(x, float) and x != x) for x in _walk(b.vals[i]))]
+           and not any(isinstance(x, np.generic) or (isinstance(x, float) and x != x) for x in _walk(b.vals[i]))
+           and not (leave_out is not None and leave_out(b.vals[i]))]
     # (a NaN is equal to itself only as the same object: shared / disk caches pickle their keys and lose that identity, and
     #  `_func_defaults` asserts `default == default` — neither is about the key; NaN-holding values are judged in check_batch)
     if len(idx) < 8:
@@ -1486,18 +1660,28 @@ def run(ctx):
         for _ in range(ctx.n(1, 6)):                           # the subclass family: instances of user subclasses and their look-alikes
             batches_specs.append(make_batch(rng, 110 if ctx.tier == "quick" else 250, outside=0.02, base=g_sub, p_base=0.75))
         batches = [Batch(ctx, s, rng) for s in batches_specs]
+        # the state family (round s5): Counters with counts <= 0, objects whose state is not their __dict__, and their look-alikes.
+        # Its own generator stream (derived from the run's seed), so that the streams above are the ones of the earlier rounds.
+        srng = random.Random(f"C15:{ctx.seed}:{ctx.tier}:state")
+        n_state = ctx.n(1, 6)
+        for x in range(n_state):
+            batches_specs.append((copy.deepcopy(STATE_CORPUS) if x == 0 else []) + make_state_batch(srng, 90 if ctx.tier == "quick" else 220))
+            batches.append(Batch(ctx, batches_specs[-1], srng))
         reqs, memo_meta = [], []
         for b in batches:
             reqs += b.requests()
-        for b in batches:
-            m = check_memo(ctx, b, rng, tmp, 60 if ctx.tier == "quick" else 150)
+        for bi, b in enumerate(batches):
+            m = check_memo(ctx, b, rng if bi < len(batches) - n_state else srng, tmp, 60 if ctx.tier == "quick" else 150)
             if m:
                 memo_meta.append((len(reqs), m[1], m[2]))
                 reqs.append(m[0])
         call_meta = []
         n_plain = 1 + n_batches                              # the corpus batch and the generated ones; the pandas batches follow
         for bi, b in enumerate(batches):
-            cc = call_checks(ctx, b, rng, tmp, (3 if ctx.tier == "quick" else 6) if bi < n_plain else (1 if ctx.tier == "quick" else 3))
+            if bi >= len(batches) - n_state:                 # (zero counts: Counter(a=0) == Counter() — which calls "pass the same values" is not judged)
+                cc = call_checks(ctx, b, srng, tmp, 1 if ctx.tier == "quick" else 2, leave_out=has_zero_count)
+            else:
+                cc = call_checks(ctx, b, rng, tmp, (3 if ctx.tier == "quick" else 6) if bi < n_plain else (1 if ctx.tier == "quick" else 3))
             if cc:
                 for req, cb in cc.reqs:
                     call_meta.append((len(reqs), cb))
